@@ -12,6 +12,30 @@ use std::cell::RefCell;
 use std::io::{self, Read};
 use std::rc::Rc;
 
+/// Every stable non-`Interrupted` error kind a source may fail with (index 0 is the default).
+pub const FAULT_KINDS: [io::ErrorKind; 20] = [
+    io::ErrorKind::Other,
+    io::ErrorKind::UnexpectedEof,
+    io::ErrorKind::WouldBlock,
+    io::ErrorKind::TimedOut,
+    io::ErrorKind::BrokenPipe,
+    io::ErrorKind::ConnectionReset,
+    io::ErrorKind::ConnectionAborted,
+    io::ErrorKind::ConnectionRefused,
+    io::ErrorKind::NotConnected,
+    io::ErrorKind::InvalidData,
+    io::ErrorKind::InvalidInput,
+    io::ErrorKind::NotFound,
+    io::ErrorKind::PermissionDenied,
+    io::ErrorKind::WriteZero,
+    io::ErrorKind::OutOfMemory,
+    io::ErrorKind::Unsupported,
+    io::ErrorKind::AlreadyExists,
+    io::ErrorKind::AddrInUse,
+    io::ErrorKind::AddrNotAvailable,
+    io::ErrorKind::InvalidFilename,
+];
+
 #[derive(Clone, Debug, PartialEq, Eq)]
 pub enum Ans {
     Deliver(usize),
@@ -39,6 +63,8 @@ pub struct SourceCfg<'d> {
     pub data: &'d [u8],
     pub grain: Grain,
     pub fault_at: Option<usize>,
+    /// kind of the permanent error (index into `FAULT_KINDS`; 0 = Other)
+    pub fault_kind: usize,
     /// budget of `Interrupted` answers offered as a choice in `Grain::Choose` mode
     pub interrupts: u32,
     /// sorted stream offsets; a read starting before a boundary never delivers bytes at or after it
@@ -49,10 +75,14 @@ pub struct SourceCfg<'d> {
 
 impl<'d> SourceCfg<'d> {
     pub fn new(data: &'d [u8], grain: Grain) -> Self {
-        SourceCfg { data, grain, fault_at: None, interrupts: 0, boundaries: None, record: false }
+        SourceCfg { data, grain, fault_at: None, fault_kind: 0, interrupts: 0, boundaries: None, record: false }
     }
     pub fn fault_at(mut self, k: Option<usize>) -> Self {
         self.fault_at = k;
+        self
+    }
+    pub fn fault_kind(mut self, k: usize) -> Self {
+        self.fault_kind = k;
         self
     }
     pub fn interrupts(mut self, n: u32) -> Self {
@@ -136,7 +166,7 @@ impl Read for ScriptedSource<'_> {
         if fit == 0 {
             if self.cfg.fault_at.map_or(false, |k| k <= self.cfg.data.len()) {
                 st.err_returned += 1;
-                return Err(io::Error::new(io::ErrorKind::Other, "scripted source failure"));
+                return Err(io::Error::new(FAULT_KINDS[self.cfg.fault_kind % FAULT_KINDS.len()], "scripted source failure"));
             }
             st.eof_returned += 1;
             return Ok(0);
